@@ -31,14 +31,14 @@ Theorem C17_commands_return_the_bytes :
   forall (r : rstate S) name id, RS order sf S R r -> In (name, id) (started 0 ops) ->
   exists r' bs,
     get_file FNMAX TS TC TA TE S r name = (r', Ok (Some (bs, len (pieces 0 id ops)))) /\
-    forall fuel, (length (pieces 0 id ops) < fuel)%nat ->
-    exists bs', read_all FNMAX TS TC TA TE S fuel bs (fun _ => 8192) 0%nat [] = (bs', Ok (pieces 0 id ops)).
+    forall zf fuel, (length (pieces 0 id ops) < fuel)%nat ->
+    exists bs', read_all FNMAX TS TC TA TE S zf fuel bs (fun _ => 8192) 0%nat [] = (bs', Ok (pieces 0 id ops)).
 Proof.
   intros until id. intros HRS Hin.
   destruct (rt_get_file FNMAX TS TC TA TE H order H0 H1 H2 ops sf rs H3 H4 H5 H6 H7 S R H8 r name id HRS Hin)
     as (r' & bs & Hg & _ & Hrd).
-  exists r', bs. split; [exact Hg|]. intros fuel Hf.
-  destruct (Hrd (fun _ => 8192) (fun _ => eq_refl) fuel Hf) as (bs' & Hr & _). exists bs'. exact Hr.
+  exists r', bs. split; [exact Hg|]. intros zf fuel Hf.
+  destruct (Hrd (fun _ => 8192) (fun _ => eq_refl) zf fuel Hf) as (bs' & Hr & _). exists bs'. exact Hr.
 Qed.
 
 (* `list -vv` shows the stored hash: it is the SHA-256 of the bytes given *)
